@@ -435,7 +435,10 @@ def minabs_pair(rng):
     c0 = float(Fraction(rng.randint(-12, 12), 4))
     k = rng.randrange(n)
     cap = float(rng.randint(-3, 1))
-    desc = {"n": n, "E": E, "offset": c0, "time_index": k, "cap": cap}
+    # (derived from the draws above: the random stream stays as it was)
+    nom = [0.5, 1.0, 4.0][int(abs(c0 * 4)) % 3]
+    wgt = [1.0, 3.0][k % 2]
+    desc = {"n": n, "E": E, "offset": c0, "time_index": k, "cap": cap, "function_nominal": nom, "weight": wgt}
 
     def f_of(op, em):
         # depends on the ensemble member through state_at
@@ -488,6 +491,8 @@ def minabs_pair(rng):
 
                 class A(MinAbsGoal):
                     priority = 2
+                    function_nominal = nom
+                    weight = wgt
 
                     def function(self, op, em):
                         return f_of(op, em)
@@ -508,6 +513,8 @@ def minabs_pair(rng):
                     class A(Goal):
                         priority = 2
                         order = 1
+                        function_nominal = nom
+                        weight = wgt
 
                         def function(self, op, em):
                             return op.extra_variable("aabs", em)
